@@ -4,7 +4,7 @@
 (* complete document (obs.arg.text) and the forest it denotes              *)
 (* (obs.exp.tree); parses are independent, so a case is one step.          *)
 EXTENDS MC_ConfText, Json
-Skel == <<cfg.fmt, cfg.acc, Len(stack), nn>>
+Skel == <<cfg.fmt, cfg.acc, Len(stack), nn, stack[Len(stack)].n = <<>> >>   \* the open section may be nameless
 Emit == PrintT(<<"BEHAV", ToJson(<<obs'>>)>>)
 
 \* names with the path separator '.': left out while the open finding C09 name_contains_path_sep
